@@ -41,6 +41,10 @@ pub struct Case {
     /// per request border: no cut there (the end of request i and the start of i+1 share a read)
     pub coalesce: Vec<bool>,
     pub real_session: bool,
+    /// the stream starts with an empty line (CRLF) before the first request line — what some clients send after a
+    /// body. Whatever the server makes of it, it must make the same of it under every segmentation
+    #[serde(default)]
+    pub leading_crlf: bool,
 }
 
 fn resolve_cut(bytes: &[u8], c: &Cut) -> Option<usize> {
@@ -140,7 +144,7 @@ impl C06 {
 impl Property for C06 {
     type Case = Case;
     const ID: &'static str = "C06";
-    const RULE: &'static str = "generated: 1–3 requests as in C05 (echo application), their bytes concatenated, and a segmentation: 0–4 cut points per case biased to the request line, header names/values, between CR and LF, exactly the head/body border, one byte into / before the end of the body, the 1 KiB buffer border, anywhere; request borders either cut or coalesced (two requests in one read). A scripted AsyncRead returns one segment per call (at most the caller's capacity) and EOF after the last; a share of cases also runs through the real Session::manage over a socketpair, each segment written only after the server consumed the previous one (FIONREAD pacing). Oracle (metamorphic): the response byte stream equals the one under the canonical segmentation (one segment per request). Non-trivial = at least one cut strictly inside a request or one coalesced border; distinct by case.";
+    const RULE: &'static str = "generated: 1–3 requests as in C05 (echo application), their bytes concatenated, and a segmentation: 0–4 cut points per case biased to the request line, header names/values, between CR and LF, exactly the head/body border, one byte into / before the end of the body, the 1 KiB buffer border, anywhere; request borders either cut or coalesced (two requests in one read); 5 % of the streams start with an empty line. A scripted AsyncRead returns one segment per call (at most the caller's capacity) and EOF after the last; a share of cases also runs through the real Session::manage over a socketpair, each segment written only after the server consumed the previous one (FIONREAD pacing). Oracle (metamorphic): the response byte stream equals the one under the canonical segmentation (one segment per request). Non-trivial = at least one cut strictly inside a request or one coalesced border; distinct by case.";
     const ASSUMPTIONS: &'static [&'static str] = &[
         "request heads stay below the 1 KiB buffer",
         "sequences with Connection: close only as the last request",
@@ -153,7 +157,7 @@ impl Property for C06 {
         C06 { router: echo::echo_router() }
     }
     fn n_cases(&self, tier: Tier) -> u64 {
-        tier.pick(40_000, 800_000)
+        tier.pick(150_000, 800_000)
     }
     fn chunk(&self, _tier: Tier) -> u64 {
         2000
@@ -173,18 +177,21 @@ impl Property for C06 {
             3 => Just(CutKind::Anywhere),
         ];
         let cut = (0u8..3, kind, any::<u16>()).prop_map(|(request, kind, at)| Cut { request, kind, at });
-        (vec(echo_wreq(), 1..=3), vec(cut, 0..=4), vec(prop::bool::weighted(0.3), 2), prop::bool::weighted(tier.pick(0.03, 0.15)))
-            .prop_map(|(mut requests, cuts, coalesce, real_session)| {
+        (vec(echo_wreq(), 1..=3), vec(cut, 0..=4), vec(prop::bool::weighted(0.3), 2), prop::bool::weighted(tier.pick(0.03, 0.15)), prop::bool::weighted(0.05))
+            .prop_map(|(mut requests, cuts, coalesce, real_session, leading_crlf)| {
                 // the refused requests C05 adds to its sequences are not this check's subject
                 for w in requests.iter_mut() {
                     w.headers.retain(|(n, v)| !n.contains('\r') && !(n.eq_ignore_ascii_case("Content-Length") && v.parse::<u64>().is_err()));
+                    if let Some(i) = w.target.find(" HTTP/1.0\r\n") {
+                        w.target.truncate(i)
+                    }
                 }
                 // Connection: close only on the last request
                 let n = requests.len();
                 for w in requests[..n - 1].iter_mut() {
                     w.headers.retain(|(h, _)| !h.eq_ignore_ascii_case("Connection"));
                 }
-                Case { requests, cuts, coalesce, real_session }
+                Case { requests, cuts, coalesce, real_session, leading_crlf }
             })
             .boxed()
     }
@@ -194,7 +201,11 @@ impl Property for C06 {
             obs.label("out-of-domain");
             return;
         }
-        let bytes: Vec<Vec<u8>> = case.requests.iter().map(|w| w.to_bytes()).collect();
+        let mut bytes: Vec<Vec<u8>> = case.requests.iter().map(|w| w.to_bytes()).collect();
+        if case.leading_crlf {
+            obs.label("leading-empty-line");
+            bytes[0].splice(0..0, *b"\r\n");
+        }
         let n = bytes.len();
         let heads: Vec<bool> = case.requests.iter().map(|w| w.method == "HEAD").collect();
         // absolute cut set
@@ -255,7 +266,7 @@ impl Property for C06 {
                 return;
             }
         };
-        if count_complete(&canonical, &heads) != n {
+        if !case.leading_crlf && count_complete(&canonical, &heads) != n {
             obs.fail("canonical-segmentation-incomplete", format!("{} complete responses for {n} requests delivered one per read", count_complete(&canonical, &heads)));
             return;
         }
